@@ -448,8 +448,19 @@ def _run_pipeline(desc):
                              sum(ds.omega[1][peaks[k][5]] * peaks[k][1] for k in mem) / sI, 1.5))
             have = [(int(got["Number_of_pixels"][k]), int(round(got["sum_intensity"][k])), int(got["npk2d"][k]), float(got["s_raw"][k]), float(got["f_raw"][k]),
                      float(got["omega"][k]), float(got["dty"][k])) for k in range(len(got["spot3d_id"]))]
+            # the same table filled IN PLACE into the arrays a pks_table allocates for itself (as the multiprocess workers do)
+            with contextlib.redirect_stdout(io.StringIO()):
+                t2 = P.pks_table(npk=np.array([(pk.pk_props.shape[1], pk.rc.shape[1], 0)]), use_shm=False)
+                t2.pk_props[:, :] = pk.pk_props
+                t2.rc[:, :] = pk.rc
+                t2.find_uniq()
+                got2 = t2.pk2dmerge(ds.omega, ds.dty)
+            have2 = [(int(got2["Number_of_pixels"][k]), int(round(got2["sum_intensity"][k])), int(got2["npk2d"][k]), float(got2["s_raw"][k]), float(got2["f_raw"][k]),
+                      float(got2["omega"][k]), float(got2["dty"][k])) for k in range(len(got2["spot3d_id"]))]
             if len(have) != len(want) or any(np.abs(np.array(a) - np.array(b)).max() > 1e-9 * max(1.0, abs(b[1])) for a, b in zip(sorted(have), sorted(want))):
                 sh.violation("pks_table_from_scan+pk2dmerge:merged-peaks-differ-from-components", case, {"got": sorted(have), "expected": sorted(want)})
+            elif len(have2) != len(want) or any(np.abs(np.array(a) - np.array(b)).max() > 1e-9 * max(1.0, abs(b[1])) for a, b in zip(sorted(have2), sorted(want))):
+                sh.violation("pks_table[filled in place]+pk2dmerge:merged-peaks-differ-from-components", case, {"got": sorted(have2), "expected": sorted(want)})
             elif pk.pk_props.shape[1] != len(peaks) or int(pk.pk_props[0].sum()) != sum(p_[0] for p_ in peaks) or int(pk.pk_props[1].sum()) != sum(p_[1] for p_ in peaks):
                 sh.violation("props:2d-peak-table-does-not-conserve-pixels-or-intensity", case, {})
             sh.evaluations += 1
